@@ -720,3 +720,7 @@ _OLD_IS = "            channel_params = query_channel_states_and_params(\n      
 P("C14", BASE, _OLD_IS, "            channel_params = {p: params[p][channel_indices] for p in channel_param_names}\n\n            init_state = channel.init_state(")
 B("C14", BASE, _OLD_IS, "            channel_params = {p: params[p] for p in channel_param_names}\n\n            init_state = channel.init_state(", "R-C14-rows")
 B("C14", BASE, _OLD_IS, "            channel_params = {p: params[p][channel_indices] for p in channel_state_names}\n\n            init_state = channel.init_state(", "R-C14-rows")
+# update_states arguments gathered by the names of their own kind
+_OLD_US = "            channel_states = query_channel_states_and_params(\n                states, channel_state_names, channel_indices\n            )\n\n            states_updated"
+B("C03", BASE, _OLD_US, "            channel_states = query_channel_states_and_params(\n                states, channel_param_names, channel_indices\n            )\n\n            states_updated", "R-C03-rows")
+P("C03", BASE, "            channel_state_names = list(channel.channel_states)\n            channel_state_names += self.membrane_current_names", "            channel_state_names = [*channel.channel_states, *self.membrane_current_names]")
